@@ -98,7 +98,7 @@ def termination_claimed(check_name, params):
         text = gen.render_path(pats)          # a generator AST
     else:
         text = ' '.join(pats) if isinstance(pats, (list, tuple)) else str(pats)
-    if check_name.startswith('c14'):
+    if check_name.startswith('c14') or check_name == 'c06_wcmatch':
         from wcmatch import wcmatch as W
         return not (flags & W.SYMLINKS)
     if flags & G.FOLLOW and not flags & G.GLOBSTARLONG:
@@ -172,4 +172,108 @@ def c05_classify(params, tree, res):
         if regions.pat_nullable_segment('gl', items, fi) and fi['matchbase']:
             # a segment pattern that can match the empty string, compiled with the implicit MATCHBASE prefix, matches every name (C02 finding)
             return 'empty-segment-by-nullable-group'
+    return None
+
+
+# ---------------------------------------------------------------------------------------------------------
+# C06: `**` does not traverse symlinked directories unless asked; termination
+
+class _Recorder:
+    """Records the path argument of every os.scandir call made by the code under test (stub or real os)."""
+
+    def __init__(self):
+        self.paths = []
+
+    def __enter__(self):
+        self.orig = os.scandir
+        rec = self
+
+        def scandir(path='.'):
+            rec.paths.append(path)
+            return rec.orig(path)
+        os.scandir = scandir
+        return self
+
+    def __exit__(self, *a):
+        os.scandir = self.orig
+        return False
+
+
+def _rel(path, root):
+    if isinstance(path, int):
+        return None
+    p = os.fsdecode(os.fspath(path))
+    if p == root:
+        return ''
+    if p.startswith(root + '/'):
+        p = p[len(root) + 1:]
+    parts = [c for c in p.split('/') if c and c != '.']
+    return '/'.join(parts)
+
+
+def _has_link_component(root, rel):
+    cur = root
+    for c in rel.split('/'):
+        if not c:
+            continue
+        cur = os.path.join(cur, c)
+        if c not in ('.', '..') and os.path.islink(cur):
+            return True
+    return False
+
+
+def c06(root, items, flags, slots):
+    """Directories listed by glob() are only those the reference walk lists: no listing through a symlink at a `**` position."""
+    from wcmatch import glob as G
+    from engine import gen, refwalk
+    text = gen.render_path(items)
+    with _Recorder() as rec:
+        R = _call(G.glob, text, flags=flags, root_dir=root)
+    if isinstance(R, str):
+        return {'viol': [f'glob raised {R}'], 'obs': R}
+    impl = sorted({x for x in (_rel(p, root) for p in rec.paths) if x is not None})
+    if any(d.count('/') > 12 for d in impl):
+        # a followed symlink cycle is being walked down to the kernel's ELOOP limit: no claim there (FOLLOW / ***)
+        return {'viol': [], 'obs': None, 'eloop': True}
+    refwalk.LISTED = []
+    try:
+        ref = refwalk.ref_glob(root, items, **glob_flags_info(flags))
+        allowed = {_rel(p, root) for p in refwalk.LISTED}
+    finally:
+        refwalk.LISTED = None
+    viol = []
+    if ref is not None:
+        # literal segments are probed with lexists by the implementation (no listing) - the reference lists less or equal there;
+        # what must never happen: a listing the reference walk would not make and that goes through a symlink
+        bad = [d for d in impl if d not in allowed and _has_link_component(root, d)]
+        if bad:
+            viol.append(f'glob({text!r}) listed directories through a symlink that the pattern does not go through: {bad}')
+    return {'viol': viol, 'obs': (sorted(R), impl)}
+
+
+def c06_wcmatch(root, pattern, flags, slots):
+    """WcMatch without SYMLINKS never lists a directory through a symlink (and terminates: listing budget)."""
+    from wcmatch import wcmatch as W
+    with _Recorder() as rec:
+        R = _call(lambda: W.WcMatch(root, pattern, None, flags).match())
+    if isinstance(R, str):
+        return {'viol': [f'WcMatch raised {R}'], 'obs': R}
+    viol = []
+    listed = sorted({x for x in (_rel(p, root) for p in rec.paths) if x is not None})
+    if not flags & W.SYMLINKS:
+        bad = [d for d in listed if d and _has_link_component(root, d)]
+        if bad:
+            viol.append(f'WcMatch listed directories through a symlink without SYMLINKS: {bad}')
+        through = [r for r in R if _has_link_component(root, os.path.dirname(_rel(r, root) or ''))]
+        if through:
+            viol.append(f'WcMatch returned files below a symlinked directory without SYMLINKS: {through}')
+    return {'viol': viol, 'obs': (sorted(_rel(r, root) for r in R), listed)}
+
+
+def c06_classify(params, tree, res):
+    import re
+    pats = params[0]
+    if isinstance(pats, str) and re.search(r'(?:^|/)\*\*\*/+\*\*(?:/|$)|(?:^|/)\*\*/+\*\*\*(?:/|$)', pats):
+        # adjacent `***` and `**` segments are folded into one globstar: the matcher keeps the first one's kind, the walker the last one's
+        return 'adjacent-globstar-kinds-merged-differently'
     return None
